@@ -142,8 +142,24 @@ Definition spec_doc (j1 j2 jy : outcome str) (q1 q2 qy : str) : bool :=
   | SigmaErr _ => true
   | Crash _ => false
   end.
-Definition judge_doc (c : N * list (N * N) * list N * list N * outcome str * outcome str * outcome str * str * str * str) : N :=
-  let '(kind, shapes, custom, keys, j1, j2, jy, q1, q2, qy) := c in
-  let agree := match j1 with Ok _ => list_eqb N.eqb (meta_keys kind shapes custom) keys | _ => true end in
+(* SigmaLogSource.to_dict: category, product, service, definition when not None, then the custom attributes;
+   SigmaCorrelationRule.to_dict: type, rules, timespan, group-by, aliases, generate (only when true), condition *)
+Fixpoint present (ks shapes : list N) : list N :=
+  match ks, shapes with
+  | k :: ks', s :: sh' => if N.eqb s 0 then present ks' sh' else k :: present ks' sh'
+  | _, _ => []
+  end.
+Definition sub_keys (kind : N) (shapes custom : list N) (flag : bool) : list N :=
+  if N.eqb kind 1 then [10; 11; 12; 13; 14] ++ (if flag then [15] else []) ++ [16]
+  else present [0; 1; 2; 3] shapes ++ custom.
+
+Definition judge_doc (c : N * list (N * N) * list N * list N * (list N * list N * bool * list N)
+                          * outcome str * outcome str * outcome str * str * str * str) : N :=
+  let '(kind, shapes, custom, keys, sub, j1, j2, jy, q1, q2, qy) := c in
+  let '(sshapes, scustom, sflag, skeys) := sub in
+  let agree := match j1 with
+               | Ok _ => list_eqb N.eqb (meta_keys kind shapes custom) keys
+                         && list_eqb N.eqb (sub_keys kind sshapes scustom sflag) skeys
+               | _ => true end in
   bits agree (spec_doc j1 j2 jy q1 q2 qy) false
        (Nat.ltb 3 (length keys)).
